@@ -63,7 +63,7 @@ class DumpOpaque:
 @contract
 class RunSkeleton:
     fn = "parser.Parser.run"
-    props = ["C12", "C10", "C19"]
+    props = ["C12", "C10", "C19", "C13", "C14"]
     raises = ("SimpleDDLParserException",)
     abstract_callees = True
     cases = {"no-dump": dict(dump=False), "dump-with-file-path": dict(dump=True)}
